@@ -836,6 +836,20 @@ def effect_program(entry, el, direction, kind):
     return None
 
 
+def loop_rounds(prog, entry, el, case):
+    """Number of rounds of the loop of a looping effect program (Model/Elements.lean: loopPrograms) for this element:
+    scales of a multi-scale coronagraph beyond the first, elements of a layered atmosphere; None for a program
+    without loop."""
+    if prog == 'copyThenChain':
+        return len(el.elements)
+    if prog.startswith('multiscale'):
+        return len(el.props) - 1
+    if prog.startswith('vvc'):
+        grid = entry.input_grid if case['direction'] == 'forward' else entry.output_grid
+        return len(el.get_instance_data(grid, None, case['wavelength']).props) - 1
+    return None
+
+
 def effects_line(obs):
     return 'retIsInput=%d retShares=%d writes=%s' % (obs['ret_is_input'], obs['ret_shares'], ','.join(obs['trace']) or '-')
 
@@ -1412,7 +1426,15 @@ def run(ctx):
         denote_done.add(fkey)
         prog = effect_program(e, el, case['direction'], case['kind'])
         if prog is not None:
-            requests.append(('C06 effects ' + prog, 'effects', (case, obs, prog)))
+            try:
+                n_rounds = loop_rounds(prog, e, el, case)
+            except Exception as ex:     # noqa
+                raise MachineryError('cannot read the number of loop rounds of %s: %s: %s' % (e.name, type(ex).__name__, ex))
+            if n_rounds is None:
+                requests.append(('C06 effects ' + prog, 'effects', (case, obs, prog)))
+            else:
+                requests.append(('C06 effects-loop %s %d' % (prog, n_rounds), 'effects', (case, obs, prog)))
+                ctx.count('effects-loop-rounds:%s:%d' % (prog, n_rounds))
             ctx.count('effects-program:' + prog)
         else:
             ctx.count('effects-program:none')
@@ -1496,17 +1518,16 @@ def run(ctx):
                 ctx.disagree('C06 effects', {'case': label, 'program': prog, 'model': ans, 'impl': effects_line(obs)})
             # what was done to the input object, in order ('copy' of it, a wavefront 'wrap'ped around its array, attribute
             # writes), and how many wavefront objects the call created.  `chain` stands for compositions of arbitrary
-            # parts (no fixed trace); the programs with a loop over layers / scales are written for one round of the
-            # loop, so the code creates at least as many objects as the model's run.
+            # parts (no fixed trace); the programs with a loop are unrolled by the model for this element's number of
+            # rounds (`effects-loop`).
             obs_touch = 'touches=%s' % (','.join(obs['touches']) or '-')
             m_created = int(toks[9][len('created='):])
             if prog == 'chain':
                 ctx.count('object-trace: opaque composition (not compared)')
             else:
-                looping = prog == 'copyThenChain' or prog.startswith('multiscale') or prog.startswith('vvc')
-                ctx.count('object-trace: %s' % ('touches exact, created >= one round of the loop' if looping else 'touches and created exact'))
-                if toks[8] != obs_touch or (obs['created'] < m_created if looping else obs['created'] != m_created):
-                    ctx.disagree('C06 effects', {'case': label, 'program': prog, 'model': ' '.join(toks[8:10]),
+                ctx.count('object-trace: touches and created exact')
+                if toks[8] != obs_touch or obs['created'] != m_created:
+                    ctx.disagree('C06 effects', {'case': label, 'program': line[len('C06 '):], 'model': ' '.join(toks[8:10]),
                                                  'impl': '%s created=%d' % (obs_touch, obs['created']),
                                                  'note': 'what the call does to the object it was given / number of wavefront objects it creates'})
             # aliasing of the attached objects: the model over-approximates ("may point to the input's grid"), so the
